@@ -398,6 +398,7 @@ type engine struct {
 	timedOut   bool
 	known      []KnownFinding
 	tier       string
+	nerr       int
 	distinctObl map[string]bool
 }
 
@@ -650,8 +651,13 @@ func (e *engine) addError(s string) {
 	defer e.mu.Unlock()
 	if len(e.errors) < 30 {
 		e.errors = append(e.errors, s)
+		fmt.Fprintln(os.Stderr, "ERROR:", s)
 	}
-	fmt.Fprintln(os.Stderr, "ERROR:", s)
+	e.nerr++
+	if e.nerr >= 8 && !e.done {
+		e.done = true // no verdict is possible any more: stop exploring
+		e.cond.Broadcast()
+	}
 }
 
 func (e *engine) reach(label string) {
